@@ -224,3 +224,7 @@ def run(ck):
     from . import c20
     c20.header_crc_once(ck, P)
     ck.assumptions += ["rustc MIR and const evaluation", "oracles/rfc1951.py transcribes RFC 1951", "host target only"]
+
+# session 5 (round 9, D24)
+EXPLANATION = EXPLANATION + " " + (
+    'ORDER/arm-store-before-suspend: in deflate(), a constant store of a header arm (`adler = 1`, `gzindex = 0`) is not behind a branch, taken after the arm stored its new status, whose other side returns. FLOW/crc-start (shared with C09): the portable fallback of Crc32Fold::fold continues the running value.')
